@@ -133,9 +133,27 @@ pub fn selftest(c: &H2Case) -> Result<(), Fail> {
 }
 
 pub fn check(c: &H2Case, st: &mut Stats) -> Result<(), Fail> {
+    check_on(c, st, &HttpProcessors::new())
+}
+
+/// the same check on an analyzer instance that has already seen other messages (every connection start is decoded
+/// as its own header list says, whatever the instance processed before)
+pub fn check_after(c: &H2Case, earlier: &[H2Case], st: &mut Stats) -> Result<(), Fail> {
+    let procs = HttpProcessors::new();
+    for e in earlier {
+        let d = e.bytes();
+        if e.request {
+            let _ = procs.parse_request(&d);
+        } else {
+            let _ = procs.parse_response(&d);
+        }
+    }
+    check_on(c, st, &procs).map_err(|f| Fail::new(format!("after-other-messages:{}", f.what), f.detail))
+}
+
+pub fn check_on(c: &H2Case, st: &mut Stats, procs: &HttpProcessors) -> Result<(), Fail> {
     selftest(c)?;
     let data = c.bytes();
-    let procs = HttpProcessors::new();
     let fields = &c.block.fields;
     let get = |n: &str| fields.iter().find(|f| f.name == n).map(|f| String::from_utf8_lossy(&f.value).to_string());
     // expected ordinary headers
@@ -330,7 +348,7 @@ pub fn h2_case() -> impl Strategy<Value = H2Case> {
 }
 
 pub fn run(ctx: &Ctx) {
-    ctx.assume("one header block per connection start, on the first stream that carries HEADERS; a fresh HttpProcessors per case (cross-message state is C07's subject); user-agent / server / accept-language / referer appear at most once");
+    ctx.assume("one header block per connection start, on the first stream that carries HEADERS; a fresh HttpProcessors per case in the first sub-check, an instance that has decoded other messages in `after-other-messages`; user-agent / server / accept-language / referer appear at most once");
     ctx.assume("the harness's HPACK encoder is self-tested on every case by decoding its output with a fresh decoder of the hpack library");
     let n = ctx.tier.pick(60_000, 2_000_000);
     ctx.run_prop(
@@ -360,6 +378,25 @@ pub fn run(ctx: &Ctx) {
             st.class(if c.request { "request" } else { "response" });
             st.sample(|| json!({"request": c.request, "fields": c.block.fields.iter().map(|f| format!("{}: {}", f.name, String::from_utf8_lossy(&f.value))).collect::<Vec<_>>(), "framing": format!("{:?}", c.framing), "bytes": truncate(&hex(&c.bytes()), 300)}));
             check(c, st)
+        },
+    );
+    // on an instance that has decoded other connections before
+    let n = ctx.tier.pick(30_000, 600_000);
+    ctx.run_prop(
+        "after-other-messages",
+        "the same generated cases, decoded by an analyzer instance that has just processed 1..3 other generated messages (requests and responses, incl. size updates, dynamic-table insertions and half-decodable blocks); oracle: the generated header list itself; non-trivial: the case or an earlier message uses the dynamic table or a size update",
+        n,
+        || (h2_case(), proptest::collection::vec(h2_case(), 1..4)),
+        |(c, earlier): &(H2Case, Vec<H2Case>), st: &mut Stats| {
+            if dynamic_ref_used(c) || earlier.iter().any(|e| dynamic_ref_used(e) || uses_feature(e)) {
+                st.nontrivial(&(c, earlier));
+            }
+            st.class(if c.request { "request" } else { "response" });
+            if earlier.iter().any(|e| e.request != c.request) {
+                st.class("earlier-message-of-the-other-kind");
+            }
+            st.sample(|| json!({"request": c.request, "earlier": earlier.iter().map(|e| if e.request { "request" } else { "response" }).collect::<Vec<_>>()}));
+            check_after(c, earlier, st)
         },
     );
     // every split point of small blocks
@@ -393,7 +430,12 @@ pub fn run(ctx: &Ctx) {
     );
 }
 
-pub fn replay(_ctx: &Ctx, _sub: &str, input: &serde_json::Value) -> Result<(), Fail> {
+pub fn replay(_ctx: &Ctx, sub: &str, input: &serde_json::Value) -> Result<(), Fail> {
+    if sub == "after-other-messages" {
+        let (c, earlier): (H2Case, Vec<H2Case>) = serde_json::from_value(input["value"].clone()).map_err(|e| fail!("bad-replay", "{e}"))?;
+        let mut st = Stats::new();
+        return check_after(&c, &earlier, &mut st);
+    }
     let c: H2Case = serde_json::from_value(input["value"].clone()).map_err(|e| fail!("bad-replay", "{e}"))?;
     let mut st = Stats::new();
     check(&c, &mut st)
